@@ -85,7 +85,7 @@ TextCellCheck(cell, c) ==
   ELSE IF c.t \in {"f32", "f64"} THEN "float"
   ELSE IF c.t = "bytes" THEN (IF cell.b = c.b THEN "" ELSE "bytes differ")
   ELSE IF c.t = "date" THEN (IF ParseDate(cell.b) = c.v THEN "" ELSE "date text differs")
-  ELSE IF c.t = "dt" THEN (IF ParseDateTime(cell.b) = c.v THEN "" ELSE "datetime text differs")
+  ELSE IF c.t = "dt" THEN (IF ParseDateTime(cell.b) = c.v \/ ("alt" \in DOMAIN c /\ ParseDateTime(cell.b) = c.alt) THEN "" ELSE "datetime text differs")
   ELSE IF c.t = "time" THEN (IF ParseTime(cell.b) = c.v \/ ("alt" \in DOMAIN c /\ ParseTime(cell.b) = c.alt) THEN "" ELSE "time text differs")
   ELSE "unknown canonical kind"
 
@@ -148,7 +148,7 @@ BinMatch(d, c) ==
   ELSE IF c.t = "f64" THEN d.t = "f64" /\ d.le = c.le
   ELSE IF c.t = "bytes" THEN d.t = "bytes" /\ d.b = c.b
   ELSE IF c.t = "date" THEN d.t = "dt" /\ d.v = c.v \o <<0, 0, 0, 0>>
-  ELSE IF c.t = "dt" THEN d.t = "dt" /\ d.v = c.v
+  ELSE IF c.t = "dt" THEN d.t = "dt" /\ (d.v = c.v \/ ("alt" \in DOMAIN c /\ d.v = c.alt))
   ELSE IF c.t = "time" THEN d.t = "time" /\ ~d.neg /\ (d.v = c.v \/ ("alt" \in DOMAIN c /\ d.v = c.alt))
   ELSE FALSE
 
